@@ -267,7 +267,7 @@ def _check_signal_lifecycles(check, an: Analysis, wrapper, rule: str = 'P', only
         owner = an.p.enclosing_self_class(fn)
         callee = Callee(fn, owner.qn if owner else None)
         paths = an.paths(callee)
-        if fn.qn.endswith('Task.cancel'):
+        if cls == CANCEL_TASK and fn.cls is not None and fn.cls.qn == _scope.TASK:
             # registered in _cancellations before it is scheduled; revoked by the wrapper
             ok_reg = True
             for path in paths:
@@ -342,14 +342,7 @@ def _check_signal_lifecycles(check, an: Analysis, wrapper, rule: str = 'P', only
         check.floor(rule, 1, 'signal creation sites')
 
 
-def _is_node(tree, node) -> bool:
-    """``tree`` (an expanded copy) is the expression ``node`` of the source"""
-    return type(tree) is type(node) and \
-        getattr(tree, 'lineno', None) == node.lineno and \
-        getattr(tree, 'col_offset', None) == node.col_offset and \
-        getattr(tree, 'end_col_offset', None) == node.end_col_offset and \
-        getattr(tree, 'end_lineno', None) == node.end_lineno and \
-        ast.dump(tree.func) == ast.dump(node.func)
+_is_node = rules.is_source_node
 
 
 def _signal_roots(an: Analysis, fn, node, depth: int = 3):
